@@ -120,3 +120,74 @@ func HarnessC01Pipeline() {
 	zz.Assert("reconciling-a-converged-xr-changes-nothing", after == before)
 	zz.Observe("composed", len(zzStoredComposed(s)), len(zzStoredRefNames(s)))
 }
+
+// HarnessC01PipelineOrders: the same composer with Go's map iteration order
+// made a decision point (the desired and observed states are Go maps): two
+// reconciles on one store, the first from an arbitrary consistent pre-state,
+// for every order in which each range over a two- or three-entry map in
+// Compose, AsState, the garbage collector and UpdateResourceRefs may run. The
+// second reconcile changes nothing whichever orders were used, and the
+// references name the desired resources in the same order. Quick: two
+// resources, orders explored in the second reconcile only; thorough: in both.
+//
+//gosym:harness
+//gosym:maporders FunctionComposer).Compose composite.AsState GarbageCollectComposedResources composite.UpdateResourceRefs
+//gosym:cover quiescent
+func HarnessC01PipelineOrders() {
+	zzPipelineOrders(2, zz.Tier() == "thorough")
+}
+
+// HarnessC01PipelineOrdersWide: three resources; orders explored in the
+// second reconcile, in the functions that write (garbage collector and
+// reference update) and in the observed-state conversion.
+//
+//gosym:harness thorough
+//gosym:maporders composite.AsState GarbageCollectComposedResources composite.UpdateResourceRefs
+//gosym:cover quiescent
+func HarnessC01PipelineOrdersWide() {
+	zzPipelineOrders(3, false)
+}
+
+func zzPipelineOrders(n int, both bool) {
+	s := kube.New()
+	zzSetupComposedN(s, n, 1, "", false)
+	desired := make([]bool, n)
+	for i := range desired {
+		desired[i] = true
+	}
+	runner := &zzRunner{steps: []zzStep{{desired: desired}}}
+	c := NewFunctionComposer(s, s, runner)
+	req := CompositionRequest{Revision: zzRevision(1)}
+	s.OnMutate = zzLeakInvariant(s)
+
+	zz.MapOrders(both)
+	_, err1 := c.Compose(context.Background(), zzReadXR(s), req)
+	zz.Assert("first-reconcile-succeeds", err1 == nil)
+	if err1 != nil {
+		return
+	}
+	refs1 := zzStoredRefNames(s)
+	before := 0
+	for _, w := range s.Writes(false) {
+		if w.Effect {
+			before++
+		}
+	}
+	zz.MapOrders(true)
+	_, err2 := c.Compose(context.Background(), zzReadXR(s), req)
+	zz.MapOrders(false)
+	zz.Assert("second-reconcile-succeeds", err2 == nil)
+	after := 0
+	for _, w := range s.Writes(false) {
+		if w.Effect {
+			after++
+		}
+	}
+	zz.Cover("quiescent")
+	zz.Assert("converged-xr-unchanged-under-every-map-order", after == before)
+	refs2 := zzStoredRefNames(s)
+	zz.Assert("one-reference-per-desired-resource", len(refs1) == n && len(refs2) == n)
+	for i := 0; i < len(refs1) && i < len(refs2); i++ {
+		zz.Assert("reference-order-independent-of-map-iteration-order", refs1[i] == refs2[i])
+	}
+}
